@@ -202,9 +202,22 @@ func (n *idleBarrier) emitBarrier() error {
 		return err
 	}
 	if n.del {
-		return n.in.Collect(edge.NewDeleteGroupMessage(n.group))
+		return collectDeleteGroup(n.in, n.group)
 	}
 	return nil
+}
+
+// collectDeleteGroup sends a DeleteGroupMessage for the group into the node's own input edge.
+// The barrier timers run independently of the node: when the task is ending the parent may
+// already have closed that edge, and then there is nothing left to delete.
+func collectDeleteGroup(in edge.Edge, group edge.GroupInfo) (err error) {
+	defer func() {
+		if r := recover(); r != nil {
+			// send on closed channel
+			err = edge.ErrAborted
+		}
+	}()
+	return in.Collect(edge.NewDeleteGroupMessage(group))
 }
 
 func (n *idleBarrier) idleHandler() {
@@ -317,7 +330,7 @@ func (n *periodicBarrier) emitBarrier() error {
 	}
 	if n.del {
 		// Send DeleteGroupMessage into self
-		return n.in.Collect(edge.NewDeleteGroupMessage(n.group))
+		return collectDeleteGroup(n.in, n.group)
 	}
 	return nil
 }
